@@ -3,13 +3,13 @@
    impl_read A db rt f s n  mirrors  _GD_DoField(D, E, repr=NONE, s, n, rt, out):
    None    = the call fails (D->error set, 0 returned)
    Some l  = it returns length l samples, l the content of the output buffer.
-   What is mirrored: _GD_DoRaw (frame-offset padding, the seek that fails for a
-   negative position, short read at the end of file), INDEX, PHASE, the
+   What is mirrored: _GD_DoRaw (frame-offset padding, the seek (skipped for a window
+   lying before sample 0), short read at the end of file), INDEX, PHASE, the
    one-input fields (input read in the operator's type, kernel applied), the
    two/three-input fields: first_samp2 = s*spf2/spf1 (C division: truncation),
-   num_samp2 = ceil(n_read*spf2/spf1), the short-read adjustments (LINCOM's
-   uses != and returns 0 on an empty second read, the others use < and go on
-   with an unwritten buffer), kernels indexing B[i*spfB/spfA], MPLEX start
+   num_samp2 = ceil(n_read*spf2/spf1), the short-read adjustments (LINCOM
+   returns 0 on an empty second read, the others go on with an unwritten
+   buffer), kernels indexing B[i*spfB/spfA], MPLEX start
    value (look-back over the index field, unlimited).
    Not mirrored: GD_TRANSACTION_MAX clamps and the 2^63 range checks (counts
    are assumed far below them), the (int) cast of num_samp2, the chunking of
@@ -39,8 +39,8 @@ Definition raw_read (rt : ctype) (id : N) (s n : Z) : option (list (V A)) :=
   let zeroed := if 0 <? zero_pad then (if n <? zero_pad then n else zero_pad) else 0 in
   let ns := n - zeroed in
   let s0 := s + zeroed in
-  (* _GD_Seek(D, E, s0): GD_E_RANGE for a negative position *)
-  if ((0 <? ns) || (0 <? zero_pad)) && (s0 <? 0) then None else
+  (* if (ns > 0 || (zero_pad && s0 >= 0)) _GD_Seek(D, E, s0): GD_E_RANGE for a negative position *)
+  if ((0 <? ns) || ((0 <? zero_pad) && (0 <=? s0))) && (s0 <? 0) then None else
   let got := if 0 <? ns then file_read (r_data r) (s0 - st) ns else [] in
   Some (repeatZ (raw_pad A rt (r_ty r)) zeroed ++ map (dec A rt (r_ty r)) got).
 
@@ -64,10 +64,6 @@ Fixpoint last_match (cnt : Z) (L : list (V A)) (pos : Z) (acc : option Z) : opti
   end.
 
 Fixpoint impl_read (rt : ctype) (f : field) (s n : Z) {struct f} : option (list (V A)) :=
-  (* first_samp == GD_HERE (-1): _GD_DoField substitutes the field's I/O
-     position, a piece of state this model does not carry; None here stands
-     for "not determined by the model" (excluded from every theorem by THere) *)
-  if s =? -1 then None else
   match f with
   | Raw id => raw_read rt id s n
   | Index => Some (map (index_val A rt) (zrange s n))
@@ -86,7 +82,7 @@ Fixpoint impl_read (rt : ctype) (f : field) (s n : Z) {struct f} : option (list 
       let n2 := zlen Y in
       if b_lincom o then
         if n2 =? 0 then Some [] else
-        let n1' := if n2 * s1 =? n1 * s2 then n1 else n2 * s1 / s2 in
+        let n1' := if n2 * s1 <? n1 * s2 then n2 * s1 / s2 else n1 in
         Some (map (fun i => bkern A o rt (buf X i) (buf Y (i * s2 / s1))) (zrange 0 n1'))
       else
         let n1' := if (0 <? n2) && (n2 * s1 <? n1 * s2) then n2 * s1 / s2 else n1 in
@@ -99,13 +95,13 @@ Fixpoint impl_read (rt : ctype) (f : field) (s n : Z) {struct f} : option (list 
       obind (impl_read F64 h (Z.quot (s * s2) s1) (cdiv (n1 * s2) s1)) (fun Y =>
       let n2 := zlen Y in
       if n2 =? 0 then Some [] else
-      let n1' := if n2 * s1 =? n1 * s2 then n1 else n2 * s1 / s2 in
+      let n1' := if n2 * s1 <? n1 * s2 then n2 * s1 / s2 else n1 in
       if cdiv (n1' * s3) s1 =? 0 then None    (* _GD_Alloc(ntype, 0): GD_E_INTERNAL_ERROR *)
       else
       obind (impl_read F64 l (Z.quot (s * s3) s1) (cdiv (n1' * s3) s1)) (fun W =>
       let n3 := zlen W in
       if n3 =? 0 then Some [] else
-      let n1'' := if n3 * s1 =? n1' * s3 then n1' else n3 * s1 / s3 in
+      let n1'' := if n3 * s1 <? n1' * s3 then n3 * s1 / s3 else n1' in
       Some (map (fun i => tkern A o rt (buf X i) (buf Y (i * s2 / s1)) (buf W (i * s3 / s1)))
                 (zrange 0 n1'')))))
   | Mplex g h cnt _ =>
